@@ -303,6 +303,20 @@ def synthServe (soa : Int) (proofs : List Int) (now : Int) : Option (Nat × Int)
     let e := synthExpiry soa proofs
     if e - now ≤ 0 then none else some (secs (e - now), e)
 
+/-! ### the prefetch trigger -/
+
+/-- `CacheEntry.TTL()`: whole seconds left, 0 once expired. -/
+def Entry.ttlSeconds (e : Entry) (now : Int) : Nat :=
+  if e.remaining now ≤ 0 then 0 else secs (e.remaining now)
+
+/-- `CacheEntry.ShouldPrefetch(threshold)`: not already claimed, and at most
+`threshold` percent of the original TTL (whole seconds) left.  The code
+computes `int(float64(threshold)/100*float64(origTTL))`; the harness uses the
+thresholds 25/50/75, for which that is `threshold*origTTL/100` exactly. -/
+def Entry.shouldPrefetch (e : Entry) (threshold : Nat) (claimed : Bool) (now : Int) : Bool :=
+  if threshold = 0 || claimed then false
+  else decide (e.ttlSeconds now ≤ threshold * secs e.ttl / 100)
+
 /-! ### DNS64 (RFC 6147 §5.1.7): the synthetic AAAA's TTL -/
 
 /-- `dns64.negativeAAAATTL`: the negative TTL of the AAAA response the
